@@ -19,7 +19,7 @@ class Table:
         return set(self.entries)
 
     def funcs(self, key):
-        return [v for v in self.entries.get(key, []) if hasattr(v, "qualname")]
+        return _Funcs([v for v in self.entries.get(key, []) if hasattr(v, "qualname")], getattr(self, "name", "dispatch table"), key)
 
     def real_funcs(self, key):
         """entries that are functions, not 'raises unconditionally' stubs"""
@@ -87,3 +87,21 @@ def _resolve_value(program, mod, v):
                         return ("stub", f, v)
             return ("factory", f, v)
     return ("expr", v)
+
+
+class _Funcs(list):
+    """the functions registered under one key; asking for one that is not there is an analysis error (the anchor is
+    gone), never a crash"""
+
+    def __init__(self, items, table, key):
+        super().__init__(items)
+        self._table, self._key = table, key
+
+    def __getitem__(self, i):
+        try:
+            return super().__getitem__(i)
+        except IndexError:
+            from .loader import AnalysisError
+
+            raise AnalysisError(f"{self._table}: no function registered for '{self._key}' (the table is built in a way this analysis does not follow)")
+
